@@ -2,6 +2,7 @@
 namespace Larking.Expected.C11
 
 def conds_state_clone : List String := [
+   "func (*state) clone() *state",
    "if s == nil",
    "return &state{ path: newPath(), conns: make(map[*grpc.ClientConn]connList), handlers: make(map[string][]*handler), }",
    "range s.conns",
@@ -10,6 +11,7 @@ def conds_state_clone : List String := [
   ]
 
 def conds_state_appendHandler : List String := [
+   "func (*state) appendHandler( opts muxOptions, desc protoreflect.MethodDescriptor, h *handler, ) error",
    "if err := s.path.addRule(implicitRule, desc, h.method); err != nil",
    "range opts.httprules.getRules(name)",
    "if err := s.path.addRule(rule, desc, h.method); err != nil",
@@ -21,6 +23,7 @@ def conds_state_appendHandler : List String := [
   ]
 
 def conds_state_removeHandler : List String := [
+   "func (*state) removeHandler(cc *grpc.ClientConn) bool",
    "if !ok",
    "return ok",
    "range cl.handlers",
@@ -31,6 +34,7 @@ def conds_state_removeHandler : List String := [
   ]
 
 def conds_state_addConnHandler : List String := [
+   "func (*state) addConnHandler( opts muxOptions, cc *grpc.ClientConn, stream rpb.ServerReflection_ServerReflectionInfoClient, ) error",
    "if err := stream.Send(&rpb.ServerReflectionRequest{ MessageRequest: &rpb.ServerReflectionRequest_ListServices{}, }); err != nil",
    "return err",
    "if err != nil",
@@ -59,6 +63,7 @@ def conds_state_addConnHandler : List String := [
   ]
 
 def conds_state_processFile : List String := [
+   "func (*state) processFile(opts muxOptions, cc *grpc.ClientConn, fd protoreflect.FileDescriptor) ([]*handler, error)",
    "for i := 0; i < sds.Len(); i++",
    "for j := 0; j < mds.Len(); j++",
    "if err := s.appendHandler(opts, md, hd); err != nil",
@@ -67,6 +72,7 @@ def conds_state_processFile : List String := [
   ]
 
 def conds_state_pickMethodHandler : List String := [
+   "func (*state) pickMethodHandler(name string) (*handler, error)",
    "if s != nil",
    "if len(hds) > 0",
    "return hd, nil",
@@ -74,6 +80,7 @@ def conds_state_pickMethodHandler : List String := [
   ]
 
 def conds_Mux_registerService : List String := [
+   "func (*Mux) registerService(gsd *grpc.ServiceDesc, ss interface{}) error",
    "defer m.mu.Unlock()",
    "if err != nil",
    "return err",
@@ -100,6 +107,7 @@ def conds_Mux_registerService : List String := [
   ]
 
 def conds_Mux_RegisterConn : List String := [
+   "func (*Mux) RegisterConn(ctx context.Context, cc *grpc.ClientConn) error",
    "if err != nil",
    "return err",
    "defer m.mu.Unlock()",
@@ -109,12 +117,14 @@ def conds_Mux_RegisterConn : List String := [
   ]
 
 def conds_Mux_DropConn : List String := [
+   "func (*Mux) DropConn(ctx context.Context, cc *grpc.ClientConn) bool",
    "defer m.mu.Unlock()",
    "if ok",
    "return ok"
   ]
 
 def conds_path_delRule : List String := [
+   "func (*path) delRule(name string) bool",
    "range p.segments",
    "if ok := s.delRule(name); ok",
    "if !s.alive()",
@@ -130,6 +140,7 @@ def conds_path_delRule : List String := [
   ]
 
 def conds_path_alive : List String := [
+   "func (*path) alive() bool",
    "return len(p.methods) != 0 || len(p.variables) != 0 || len(p.segments) != 0"
   ]
 
